@@ -106,6 +106,9 @@ func main() {
 	tmpRoot := os.Getenv("TMPDIR")
 	if tmpRoot == "" {
 		tmpRoot = "/tmp"
+		if fi, err := os.Stat("/dev/shm"); err == nil && fi.IsDir() {
+			tmpRoot = "/dev/shm" // tmpfs: the disk-filespace checks are syscall bound
+		}
 	}
 	scratch, err := os.MkdirTemp(tmpRoot, "vcheck-"+id+"-")
 	if err != nil {
